@@ -846,7 +846,59 @@ class SpecMixin(object):
             self.add_vc('callsite[%s]:%s@%s' % (name, short, getattr(node, 'lineno', '?')), 'pre', st, cond,
                         node, note=r)
 
+    def sync_slot_of(self, c):
+        """name given to @synchronized(...) on the real function behind contract c (None: not synchronized)"""
+        cache = self.__dict__.setdefault('_sync_cache', {})
+        if c.qual not in cache:
+            name = None
+            if not c.trusted and ':' in c.qual and not c.qual.split(':')[1].startswith('$'):
+                try:
+                    name = self.src.find(c.qual).synchronized
+                except Exception:
+                    name = None
+            cache[c.qual] = name
+        return cache[c.qual]
+
     def call_contract(self, st, c, args, kw, node, recv=None, star=None):
+        """A call of a @synchronized method goes through the wrapper verified under C10: it is either refused at once
+        with ConflictError and no effect, or the body runs owning the exclusive slot (ghost excl) and the slot is the
+        caller's again afterwards.  (For a caller that already owns the slot only the refusal is real; keeping both
+        outcomes is an over-approximation.)"""
+        sync = self.sync_slot_of(c) if 'excl' in self.spec.ghosts else None
+        if sync is None or getattr(self, '_in_sync', False):
+            return self.call_contract_body(st, c, args, kw, node, recv, star)
+        out = []
+        # the wrapper refuses iff the arbiter is restarting or the slot is taken (util.synchronized, verified under C10)
+        busy = None
+        if recv is not None and isinstance(recv.ty, TRef) and recv.ty.cls in ('Watcher', 'Arbiter'):
+            a = recv if recv.ty.cls == 'Arbiter' else self.read_field(st, recv.z, 'Watcher', 'arbiter')
+            if recv.ty.cls == 'Arbiter' or True:
+                rs = self.read_field(st, a.z, 'Arbiter', '_restarting')
+                sl = self.read_field(st, a.z, 'Arbiter', '_exclusive_running_command')
+                busy = z3.Or(rs.z, z3.Not(Val.is_VNone(sl.z)))
+        if not (c.kind == 'coroutine' and self._awaiting):
+            ex = Exc('ConflictError', {}, True, origin='%s@%s' % (c.qual.split(':')[-1], getattr(node, 'lineno', '?')))
+            rst = st if busy is None else st.assume(busy)
+            if busy is None or self.feasible(rst):
+                out.append(Res(rst, None, ex))
+            self.notes.append('call of @synchronized(%r) %s at line %s: refusal outcome added' %
+                              (sync, c.qual, getattr(node, 'lineno', '?')))
+            if busy is not None:
+                st = st.assume(z3.Not(busy))
+        if c.kind == 'coroutine' and not self._awaiting:
+            return out + self.call_contract_body(st, c, args, kw, node, recv, star)
+        mine = self.ghost_get(st, 'excl')
+        st1 = self.ghost_set(st, 'excl', mk_bool(True))
+        self._in_sync = True
+        try:
+            res = self.call_contract_body(st1, c, args, kw, node, recv, star)
+        finally:
+            self._in_sync = False
+        for r in res:
+            out.append(Res(self.ghost_set(r.st, 'excl', mine), r.val, r.exc))
+        return out
+
+    def call_contract_body(self, st, c, args, kw, node, recv=None, star=None):
         self.used_contracts.add(c.qual)
         self.use_axioms(c)
         if c.kind == 'coroutine' and not self._awaiting:
